@@ -340,6 +340,30 @@ def r12(ctx, rep):
     rep.check(n_star == 2, "star-constructors", f"expected SelectItem::Wildcard and SelectItem::QualifiedWildcard in gen_projection.rs, found {n_star}", file=g["file"], line=g["l"], fn=g["path"])
 
 
+def r13(ctx, rep):
+    rep.rule("C05.R13", "the column list extracted from an s-string relation is complete or not used at all", floor=2)
+    syn = ctx.syn
+    f = syn.fn("lowering::try_extract_sql_columns", crate="prqlc")
+    # role anchor: the chain over the parsed statement's `.projection`
+    chains = []
+    for n in walk(f["body"]):
+        if n.get("k") == "mcall":
+            names, cur = [], n
+            while cur.get("k") == "mcall":
+                names.append((cur["m"], cur.get("tf", "")))
+                cur = cur["r"]
+            if cur.get("k") == "field" and cur.get("f") == "projection" and names and names[0][0] in ("collect", "try_collect", "collect_vec"):
+                chains.append((n, list(reversed(names))))
+    rep.check(len(chains) >= 1, "projection-chain", f"expected the iterator chain over `select_stmt.projection` in try_extract_sql_columns, found {len(chains)}", file=f["file"], line=f["l"], fn=f["path"])
+    dropping = {"filter_map", "flatten", "filter", "flat_map", "skip", "take", "step_by", "skip_while", "take_while", "map_while", "ok", "flatten_ok", "filter_ok"}
+    for n, names in chains:
+        used = [m_ for m_, _ in names if m_ in dropping]
+        fallible = names[-1][0] == "try_collect" or "Result" in str(names[-1][1])
+        rep.check(not used and fallible, "all-or-nothing", f"the select items of the s-string are turned into column names through `.{'.'.join(m_ for m_, _ in names)}`: an item that has no name (an un-aliased "
+                  f"expression, a wildcard) must abort the extraction (`collect::<Result<..>>`), not be skipped ({used}); with a partial list the relation is declared with fewer columns than it has and "
+                  "`from s\"SELECT dept, MAX(salary) ..\"` loses a result column", file=f["file"], line=n["l"], fn=f["path"])
+
+
 def run(ctx, rep):
-    for r in (r1, r2, r3, r4, r5, r6, r7, r8, r9, r10, r12):
+    for r in (r1, r2, r3, r4, r5, r6, r7, r8, r9, r10, r12, r13):
         rep.guard(r, ctx)
